@@ -29,9 +29,9 @@ impl Check for C11 {
     }
     fn n_runs(&self, thorough: bool) -> u64 {
         if thorough {
-            300_000
+            500_000
         } else {
-            8_000
+            12_000
         }
     }
     fn gen_plan(&self, seed: u64, _idx: u64, _t: bool) -> Value {
